@@ -951,9 +951,16 @@ class Curve(BaseCurve):
         for newvector, matrix in zip(newvectors, matrices):
             matrix = np.array(matrix)
             newcurve = Curve(newvector)
-            newcurve.ctrlpoints = np.dot(matrix, self.ctrlpoints)
-            if self.weights is not None:
-                newcurve.weights = np.dot(matrix, self.weights)
+            if self.weights is None:
+                newcurve.ctrlpoints = np.dot(matrix, self.ctrlpoints)
+            else:
+                numerators = [w * pt for w, pt in zip(self.weights, self.ctrlpoints)]
+                numerators = np.dot(matrix, numerators)
+                newweights = np.dot(matrix, self.weights)
+                newcurve.weights = newweights
+                newcurve.ctrlpoints = [
+                    num / w for num, w in zip(numerators, newweights)
+                ]
             newcurves.append(newcurve)
         return tuple(newcurves)
 
